@@ -20,6 +20,18 @@ Theorem C07_glyf_fuel_enough : forall tbl ids fuel,
 Proof. exact glyf_subset_any_fuel. Qed.
 Print Assumptions C07_glyf_fuel_enough.
 
+(* without fuel: one loop iteration, as a relation on the states (glyph_ids, i), is well founded
+   on ALL states; the measure that decreases is (ids still to visit) + (component ids of the
+   table not yet in glyph_ids) *)
+Theorem C07_glyf_loop_terminates : forall tbl, well_founded (loop_next tbl).
+Proof. exact loop_terminates. Qed.
+Print Assumptions C07_glyf_loop_terminates.
+
+Theorem C07_glyf_loop_measure : forall tbl s' s,
+  loop_next tbl s' s -> (loop_measure tbl s' < loop_measure tbl s)%nat.
+Proof. exact loop_next_decreases. Qed.
+Print Assumptions C07_glyf_loop_measure.
+
 (* number of iterations = number of glyphs of the subset <= requested + distinct component ids *)
 Theorem C07_glyf_loop_bound : forall tbl ids recs,
   glyf_subset tbl ids = Ok recs ->
